@@ -295,6 +295,37 @@ def window_proofs(fn):
         atoms = conjuncts(g)
         # non-constant offsets: m_p[i] with i < X and X <= window (both from dominating guards / the loop header)
         win_vars = set(a[2] for a in atoms if a[0] == "cmp" and a[1] in ("<=", "<") and WINDOW in a[3])
+        # ... or the index is compared with the window size itself by the condition of the innermost loop (`i < min(n, m_end - m_p)`
+        # is `i < n && i < m_end - m_p`), and nothing in that loop moves the cursor
+        for d in ir.walk(st):
+            if d.get("k") == "Index" and path(d.get("base")) == ("this", "m_p") and const_value(d.get("idx")) is None and loops:
+                ik = int_key(d.get("idx"), env)
+                inner = [l_ for l_ in loops if l_.get("k") in ("For", "While")]
+                if inner and any(a[0] == "cmp" and a[1] == "<" and a[2] == ik and WINDOW in str(a[3]) and "+" not in str(a[3]).replace(WINDOW, "") for a in atoms) and \
+                        ((unwrap(d.get("idx")) or {}).get("t", "").startswith("unsigned") or _loop_counts_up_from_zero(loops, ik)):
+                    lpn = inner[-1]
+                    if not any(is_mp_move(x) or (x.get("k") == "MCall" and (x.get("callee") or {}).get("cls") == DEC and not (x.get("callee") or {}).get("const"))
+                               for x in ir.walk(lpn.get("body"))) and WINDOW in show(lpn.get("cond")) or \
+                            (not any(is_mp_move(x) or (x.get("k") == "MCall" and (x.get("callee") or {}).get("cls") == DEC and not (x.get("callee") or {}).get("const"))
+                                     for x in ir.walk(lpn.get("body"))) and any(WINDOW in show(v_) for k_, v_ in env.defs.items() if v_ is not None and k_ in show(lpn.get("cond")))):
+                        out[id(d)] = "index %s is below the number of bytes left in the window (loop condition), and the loop does not move the cursor" % ik
+        # ... or X is a local defined as the window size or as min(.., window), with the cursor unmoved since
+        here_o = order.get(id(st), 0)
+        for key_, d_ in env.defs.items():
+            if d_ is None or key_ in getattr(env, "assigned", ()):
+                continue
+            ud = unwrap_all_casts(d_)
+            is_min = isinstance(ud, dict) and ud.get("k") == "Call" and callee_name(ud) == "min" and any(WINDOW in show(a_) for a_ in ud.get("args", []))
+            if (is_min or show(ud).strip("()") == WINDOW) and id(d_) in order:
+                d_o = order[id(d_)]
+                if d_o < here_o and not any(d_o < m < here_o for m in moves) and not any(d_o < r_ < here_o for r_ in refills):
+                    win_vars.add(key_)
+                    for d in ir.walk(st):
+                        if d.get("k") == "Index" and path(d.get("base")) == ("this", "m_p") and const_value(d.get("idx")) is None:
+                            ik = int_key(d.get("idx"), env)
+                            if any(a[0] == "cmp" and a[1] == "<" and a[2] == ik and a[3] == key_ for a in atoms) and \
+                                    ((unwrap(d.get("idx")) or {}).get("t", "").startswith("unsigned") or _loop_counts_up_from_zero(loops, ik)):
+                                out[id(d)] = "index %s is below %s, which was computed from the bytes left in the window with the cursor unmoved since" % (ik, key_)
         for d in ir.walk(st):
             if d.get("k") == "Index" and path(d.get("base")) == ("this", "m_p") and const_value(d.get("idx")) is None:
                 ik = int_key(d.get("idx"), env)
